@@ -231,6 +231,28 @@ fn e2e_scenario(seed: u64, i: usize, tier: Tier) -> Outcome {
                 }
             }
         }
+        // ... and on a clean path (every hop answers within a few ms, nothing fails, no outage)
+        // whose probed part fits the in-flight window, the target does answer at its true
+        // distance within the run: the length cannot stay short (or zero) for ever
+        let clean = w.cfg.topo.hops.iter().all(|h| h.behaviour != Behaviour::Silent)
+            && w.cfg.faults.at_op.is_empty()
+            && w.cfg.faults.send_fails_for_ttl.is_none()
+            && w.cfg.faults.bind_in_use_pct == 0
+            && w.cfg.blackouts.is_empty();
+        if clean && dist >= tcfg.first_ttl && dist <= tcfg.max_ttl {
+            let span = dist - tcfg.first_ttl + 1;
+            if span <= 16 && tcfg.max_inflight >= span && run.result.is_ok() {
+                o.hit("stable_answering_path_is_discovered");
+                if !established || run.rounds.last().is_some_and(|r| r.largest_ttl != dist) {
+                    o.violate(
+                        "stable_answering_path_is_discovered",
+                        format!("{site}|first{}|inflight{}", u8::from(tcfg.first_ttl > 1), u8::from(tcfg.max_inflight < tcfg.first_ttl)),
+                        format!("after {} rounds the path length is {:?} although every hop from first-ttl {} to the target at distance {dist} answers within 3ms, nothing fails and max-inflight {} covers the whole path", run.rounds.len(), run.rounds.last().map(|r| r.largest_ttl), tcfg.first_ttl, tcfg.max_inflight),
+                        replay.clone(),
+                    );
+                }
+            }
+        }
     }
     let nothing = run.rounds.iter().all(|r| r.probes.iter().all(|p| !matches!(p, ProbeStatus::Complete(_))));
     if nothing {
